@@ -1,7 +1,7 @@
 (* TieChunk.v -- parse_chunk_size as translated on this run = Model.chunk_loop; every overflow guard the
    translator emitted is discharged here. *)
 From Coq Require Import List NArith Bool Lia ZifyBool ZifyN ZifyNat.
-From HV Require Import Cursor Scan Model Imp.
+From HV Require Import Cursor Scan Model Imp ImpLib.
 From HV.Generated Require Import Lib.
 From HV.Proofs Require Import TieBase.
 Import ListNotations.
@@ -15,7 +15,7 @@ Definition chunk_out (r : ires L_g_parse_chunk_size (nat * N) unit unit) : out (
   | IDone _ l c => Done (apos c, g_parse_chunk_size_v_size l) c
   | IPart _ => Part
   | IFail e _ => Fail e
-  | IFault f => Fault f
+  | IFault f _ => Fault f
   | IExc (Ret r) _ c => Done r c
   | IExc _ _ _ => Fault Unreachable
   end.
@@ -94,7 +94,7 @@ Proof.
   clearbody B.
   specialize (HL fuel 0 true false 0%nat c). change (N.of_nat 0) with 0 in HL.
   rewrite <- HL by lia. norm.
-  destruct (iloop _ _ _ _ _) as [a l' c'|l'|e l'|f0|x l' c']; norm; try reflexivity.
+  destruct (iloop _ _ _ _ _) as [a l' c'|l'|e l'|f0 l'|x l' c']; norm; try reflexivity.
   destruct x; reflexivity.
 Qed.
 
